@@ -5,4 +5,7 @@ CONSTANTS
   TwoQueues = FALSE
   SkipAfterDelete = TRUE
   MaxCalls = 4
-INVARIANTS TypeOK EveryLaterMessage StaysSubscribed NoneAfterUnsubscribed NoOvertaking
+  MaxPubs = 1
+  SplitPub = FALSE
+INVARIANTS TypeOK EveryLaterMessage NoDuplicateDelivery NoneToThoseWhoLeft StaysSubscribed NoneAfterUnsubscribed NoOvertaking
+CHECK_DEADLOCK FALSE
